@@ -224,6 +224,10 @@ func (m *Macaroon) Add(caveats ...Caveat) error {
 			return errors.New("cannot add attestations to non-proof macaroons")
 		}
 
+		if wrapsAttestation(caveat) {
+			return errors.New("cannot add attestations inside wrapper caveats")
+		}
+
 		if c3p, ok := caveat.(*Caveat3P); ok {
 			// make a copy since we have to modify it. in case the caveat is
 			// added to multiple macaroons
@@ -388,6 +392,10 @@ func (m *Macaroon) verify(k SigningKey, dms []*Macaroon, parentTokenBindingIds [
 				return nil, errors.New("attestation in non-proof macaroon")
 			}
 
+			if wrapsAttestation(cav) {
+				return nil, errors.New("attestation inside wrapper caveat")
+			}
+
 			if !IsAttestation(cav) || trustAttestations {
 				ret.Caveats = append(ret.Caveats, c)
 			}
@@ -468,6 +476,31 @@ func (m *Macaroon) verify(k SigningKey, dms []*Macaroon, parentTokenBindingIds [
 	}
 
 	return ret, nil
+}
+
+// wrapsAttestation reports whether c is a wrapper caveat (e.g.
+// resset.IfPresent) containing an attestation at any depth. Attestations are
+// only meaningful at the top level of a proof. A wrapper holding one can never
+// clear a request, and GetCaveats would hand the wrapped attestation to callers
+// without any of the proof/trust checks having been applied to it.
+func wrapsAttestation(c Caveat) bool {
+	wc, ok := c.(WrapperCaveat)
+	if !ok {
+		return false
+	}
+
+	cs := wc.Unwrap()
+	if cs == nil {
+		return false
+	}
+
+	for _, cc := range cs.Caveats {
+		if IsAttestation(cc) || wrapsAttestation(cc) {
+			return true
+		}
+	}
+
+	return false
 }
 
 // finalizeSignature could conceptually just hash the macaroon tail. We're
